@@ -16,7 +16,7 @@ open Smpl.Drv
 
 def dispatchIO (line : String) : IO String :=
   match (line.splitOn " ").filter (· ≠ "") with
-  | "akai" :: rest => akaiOp (fun _ => false) rest
+  | "akai" :: rest => akaiOp (fun c => (Smpl.AkaiProgram.parse c).isSome) rest
   | _ => pure (dispatch line)
 where dispatch (line : String) : String :=
   match (line.splitOn " ").filter (· ≠ "") with
